@@ -2888,6 +2888,28 @@ theorem csum_pos_of_witness (B : ι → ι → ℝ) (hB : ∀ a b, 0 ≤ B a b) 
 
 end csumpos
 
+section cellsum
+variable {ι : Type} [Fintype ι] [DecidableEq ι]
+open BigOperators Finset
+
+/-- an enumeration of all cells of a matrix, each exactly once, sums to the total -/
+theorem tot_eq_sum_enumeration (M : ι → ι → ℝ) (k : ℕ) (cell : Fin k → ι × ι)
+    (hbij : Function.Bijective cell) :
+    ∑ t, M (cell t).1 (cell t).2 = tot M := by
+  have h1 : ∑ t, M (cell t).1 (cell t).2 = ∑ p : ι × ι, M p.1 p.2 :=
+    Fintype.sum_bijective cell hbij (fun t => M (cell t).1 (cell t).2) (fun p => M p.1 p.2)
+      (fun _ => rfl)
+  rw [h1, Fintype.sum_prod_type]
+  rfl
+
+/-- the same with injectivity and (cell-wise) surjectivity stated separately -/
+theorem tot_eq_sum_enumeration_of_inj_surj (M : ι → ι → ℝ) (k : ℕ) (cell : Fin k → ι × ι)
+    (hinj : Function.Injective cell) (hsurj : ∀ x y, ∃ t, cell t = (x, y)) :
+    ∑ t, M (cell t).1 (cell t).2 = tot M :=
+  tot_eq_sum_enumeration M k cell ⟨hinj, fun p => hsurj p.1 p.2⟩
+
+end cellsum
+
 -- (tenth batch, `section dijkstra`: definitions `wwalk`, `reachw`, `wd`; `wd_self`, `wd_nonneg`, `wd_le`, `le_wd`, `wd_approx`, `wd_attained`
 --  (the infimum is a minimum), `wd_relax`, `wd_triangle`, `wwalk_cross(_wd)`, `dijkstra_lower`, `dijkstra_step`, `dijkstra_step_le`,
 --  `dijkstra_step_inv`, `dijkstra_step_T`, `dijkstra_init`, `dijkstra_exhausted`, `dijkstra_smt`, `wd_smt`, `reachw_iff_sdist`, `reachw_iff_walk(_pos)`, `wd_pos`, `wd_pred`:
@@ -2903,5 +2925,6 @@ end csumpos
 -- (fifteenth batch, `section diagcount`: `ccnt_congr_support`, `cnt1_congr_support`, `ccnt_diag_set`, `cnt1_diag_set`: all proved.)
 -- (sixteenth batch, `section nestcount`: `ccnt_le_dset`, `cnt_le_rset`, `ccnt_pos_of_witness`, `cnt_pos_of_witness`, `csum_le_wset`: all proved.)
 -- (seventeenth batch, `section csumpos`: `csum_pos_of_witness`: proved.)
+-- (eighteenth batch, `section cellsum`: `tot_eq_sum_enumeration`, `tot_eq_sum_enumeration_of_inj_surj`: all proved.)
 
 end VerifLemmas
